@@ -244,6 +244,19 @@ impl MetadataClient for LocalMetadataClient {
         source_chunks: &[String],
         target_chunk: &str,
     ) -> Result<()> {
+        // The swap only makes sense if the merged chunk is already registered
+        // and survives the removal of the sources; otherwise the sources would
+        // be dropped with nothing in their place (the object-store backend
+        // rejects this case as well).
+        if !self.chunks.contains_key(target_chunk)
+            || source_chunks.iter().any(|p| p == target_chunk)
+        {
+            return Err(crate::Error::Metadata(format!(
+                "Compaction target chunk not found in catalog: {}",
+                target_chunk
+            )));
+        }
+
         // Determine the new level (max source level + 1)
         let new_level = source_chunks
             .iter()
